@@ -239,6 +239,20 @@ pub fn expand(q: &QCase) -> Vec<Case> {
         ),
         // the list is all there is to the identifier: all(Q) / of(Q, n) count its members
         3 => Body::Map(Block(vec![Entry { key: KeySpec::plain(base_field), val: ValSpec::List(q.members.clone()) }])),
+        // the same under a str() cast (string members only)
+        4 => {
+            let all_strings = q.members.iter().all(|m| match m {
+                ValSpec::Str(t) => matches!(crate::reference::parse_pattern(t, false), Ok(p) if p.is_string_kind()),
+                _ => false,
+            });
+            if !all_strings {
+                return vec![];
+            }
+            Body::Map(Block(vec![Entry {
+                key: KeySpec { modifier: KMod::Str, field: base_field.to_string() },
+                val: ValSpec::List(q.members.clone()),
+            }]))
+        }
         _ => {
             if is_block || k < 2 {
                 // a mapping cannot hold the same key twice: use the sequence form
@@ -270,7 +284,13 @@ pub fn expand(q: &QCase) -> Vec<Case> {
     let mut docs: Vec<_> = q.recipes.iter().map(|r| gen::build_doc(&qrule, r)).collect();
     // array fields whose elements satisfy different members: a member matches an array when some
     // element does, so the quantifier has to combine hits across the elements
-    if (q.form == 0 || q.form == 3) && !is_block && !q.recipes.is_empty() {
+    if q.form == 4 {
+        // values that only a cast turns into text
+        for v in [crate::model::DocVal::Int(1), crate::model::DocVal::UInt(5), crate::model::DocVal::Int(15), crate::model::DocVal::Bool(true), crate::model::DocVal::Float(1.5), crate::model::DocVal::s("15"), crate::model::DocVal::Int(-1)] {
+            docs.push(crate::model::DObj(vec![(base_field.to_string(), v)]));
+        }
+    }
+    if (q.form == 0 || q.form == 3 || q.form == 4) && !is_block && !q.recipes.is_empty() {
         let truths: Vec<crate::model::DocVal> = crate::spec::collect_leaves(&qrule)
             .iter()
             .filter(|l| l.field == base_field)
@@ -291,7 +311,13 @@ pub fn expand(q: &QCase) -> Vec<Case> {
     let mut c = Case::new("c08.members");
     c.rules.push(qrule.text());
     for (i, m) in q.members.iter().enumerate() {
-        let mr = member_rule(&field_of(i), m);
+        let mut mr = member_rule(&field_of(i), m);
+        if q.form == 4 {
+            // the member on its own carries the cast as well
+            if let Body::Map(b) = &mut mr.idents[0].1 {
+                b.0[0].key.modifier = KMod::Str;
+            }
+        }
         c.rules.push(mr.text());
         c.rules.push(mr.negated_text());
     }
@@ -344,7 +370,7 @@ fn members() -> BoxedStrategy<Vec<ValSpec>> {
         })
     });
     let regexes = (
-        prop::collection::vec(prop::sample::select(vec!["?a", "?^a", "?b$", "?a.b", "?[ab]+c", "?^ab$", "?A", "?B$", "?^[ab]", "?ab", "?.*ab", "?ab.*", "?.*ab.*", "?.*a", "?^.*ab"]), 1..=4),
+        prop::collection::vec(prop::sample::select(vec!["?a", "?^a", "?b$", "?a.b", "?[ab]+c", "?^ab$", "?A", "?B$", "?^[ab]", "?ab", "?.*ab", "?ab.*", "?.*ab.*", "?.*a", "?^.*ab", "?1", "?^5", "?\\d", "?^\\d+$", "?true"]), 1..=4),
         0u8..3,
         any::<u8>(),
     )
@@ -394,7 +420,7 @@ fn members() -> BoxedStrategy<Vec<ValSpec>> {
 }
 
 fn qcase() -> BoxedStrategy<QCase> {
-    (0u8..3, 0u64..=6, members(), 0u8..4, prop::collection::vec(gen::doc_recipe(), 6))
+    (0u8..3, 0u64..=6, members(), 0u8..5, prop::collection::vec(gen::doc_recipe(), 6))
         .prop_map(|(quant, n, members, form, recipes)| QCase { quant, n, members, form, recipes })
         .boxed()
 }
